@@ -22,6 +22,41 @@ theorem mt_translated_pinned : Irismod.Gen.PureMt.translated =
      "decreaseMTSupply_supply_1(read_k_GetMTSupply_ctx_denomID_mtID)",
      "decreaseMTSupply_supply_2(supply,amount)"] := rfl
 
+/-- every rejecting guard (an `if` ending in the return of an error, or in a panic) of the translated functions and of
+the handlers around them, as source text in source order: removing, weakening or reordering one breaks this -/
+theorem mt_guards_pinned : Irismod.Gen.PureMt.guards =
+    ["AddBalance: math.MaxUint64-balance < amount",
+     "IncreaseMTSupply: math.MaxUint64-supply < amount",
+     "Keeper.IssueMT: err := k.IncreaseMTSupply(ctx, denomID, mt.GetID(), amount); err != nil",
+     "Keeper.IssueMT: err := k.AddBalance(ctx, denomID, mt.GetID(), amount, recipient); err != nil",
+     "Keeper.MintMT: err := k.IncreaseMTSupply(ctx, denomID, mtID, amount); err != nil",
+     "Keeper.EditMT: mt, err := k.GetMT(ctx, denomID, mtID); err != nil",
+     "Keeper.TransferOwner: srcOwnerAmount < amount",
+     "Keeper.BurnMT: srcOwnerAmount < amount",
+     "Keeper.TransferDenomOwner: err := k.Authorize(ctx, denomID, srcOwner); err != nil",
+     "Keeper.TransferDenomOwner: err := k.UpdateDenom(ctx, denom); err != nil",
+     "Keeper.Authorize: !found",
+     "Keeper.Authorize: owner.String() != denom.Owner",
+     "msgServer.IssueDenom: sender, err := sdk.AccAddressFromBech32(msg.Sender); err != nil",
+     "msgServer.MintMT: sender, err := sdk.AccAddressFromBech32(msg.Sender); err != nil",
+     "msgServer.MintMT: recipient, err = sdk.AccAddressFromBech32(msg.Recipient); err != nil",
+     "msgServer.MintMT: err := m.Keeper.Authorize(ctx, msg.DenomId, sender); err != nil",
+     "msgServer.MintMT: !m.Keeper.HasMT(ctx, msg.DenomId, mtID)",
+     "msgServer.MintMT: err := m.Keeper.MintMT(ctx, msg.DenomId, mtID, msg.Amount, recipient); err != nil",
+     "msgServer.MintMT: mt, err := m.Keeper.IssueMT(ctx, msg.DenomId, m.Keeper.genMTID(ctx), msg.Amount, msg.Data, recipient); err != nil",
+     "msgServer.MintMT: mt, err := m.Keeper.GetMT(ctx, msg.DenomId, mtID); err != nil",
+     "msgServer.EditMT: sender, err := sdk.AccAddressFromBech32(msg.Sender); err != nil",
+     "msgServer.EditMT: err := m.Keeper.Authorize(ctx, msg.DenomId, sender); err != nil",
+     "msgServer.EditMT: err := m.Keeper.EditMT(ctx, msg.DenomId, msg.Id, msg.Data, sender); err != nil",
+     "msgServer.TransferMT: sender, err := sdk.AccAddressFromBech32(msg.Sender); err != nil",
+     "msgServer.TransferMT: recipient, err := sdk.AccAddressFromBech32(msg.Recipient); err != nil",
+     "msgServer.TransferMT: err := m.Keeper.TransferOwner(ctx, msg.DenomId, msg.Id, msg.Amount, sender, recipient); err != nil",
+     "msgServer.BurnMT: sender, err := sdk.AccAddressFromBech32(msg.Sender); err != nil",
+     "msgServer.BurnMT: err := m.Keeper.BurnMT(ctx, msg.DenomId, msg.Id, msg.Amount, sender); err != nil",
+     "msgServer.TransferDenom: sender, err := sdk.AccAddressFromBech32(msg.Sender); err != nil",
+     "msgServer.TransferDenom: recipient, err := sdk.AccAddressFromBech32(msg.Recipient); err != nil",
+     "msgServer.TransferDenom: err := m.Keeper.TransferDenomOwner(ctx, msg.Id, sender, recipient); err != nil"] := rfl
+
 /-- the overflow guard `MaxUint64 - x < n` of `AddBalance` / `IncreaseMTSupply` is the model's ℕ-level guard -/
 theorem overflow_guard_eq_model (cur n : UInt64) :
     AddBalance_guard_1 cur.toNat n.toNat = some (decide (maxU64 - cur.toNat < n.toNat)) ∧
